@@ -583,6 +583,14 @@ def iteration_context(cs):
                     if in_cycle(par.body, c.bb):
                         return None, "for_each itself sits on a loop"
                     return sym_through(a[0], *ITER_VIEWS), None
+        # a closure handed to a helper that calls it once per element (`for (k, v) in other { f(map, k, v) }`)
+        for g_ in par.region():
+            gsy = Sym(g_)
+            for c in g_.body.calls():
+                if c.is_("Fn::call", "FnMut::call_mut", "FnOnce::call_once") and not c.foreign():
+                    tgt = strip_sym(gsy.operand(c.args[0]))
+                    if tgt[0] == "agg" and tgt[1] == "closure" and tgt[5] == fn.path:
+                        return iteration_context(c)
         return None, "the enclosing closure is not the argument of Iterator::for_each"
     return None, "the call is not inside a loop or a for_each closure"
 
@@ -721,3 +729,23 @@ def opt_alts(crate, s, depth=0):
         if path_is(s[1], "Option<T>::unwrap_or_else") and len(a) == 2:
             return payloads(a[0]) + [(x, "if-none") for x, _ in opt_alts(crate, run_closure(a[1]), depth + 1)]
     return [(s, "")]
+
+
+def actual_of(fn, s):
+    """If `s` (a Sym built in closure `fn`) is one of the closure's own parameters and the closure is invoked through
+    Fn::call/call_mut/call_once somewhere in its creator's region, returns the corresponding actual argument expressed
+    in the caller's terms; otherwise returns s unchanged."""
+    a = sym_arg(sym_through(s))
+    par = getattr(fn, "parent", None)
+    if a is None or fn.dk != "Closure" or par is None or a[0] < 1:
+        return s
+    for g_ in par.region():
+        gsy = Sym(g_)
+        for c in g_.body.calls():
+            if c.is_("Fn::call", "FnMut::call_mut", "FnOnce::call_once") and not c.foreign() and len(c.args) == 2:
+                tgt = strip_sym(gsy.operand(c.args[0]))
+                if tgt[0] == "agg" and tgt[1] == "closure" and tgt[5] == fn.path:
+                    tup = strip_sym(gsy.operand(c.args[1]))
+                    if tup[0] == "agg" and tup[1] == "tuple" and a[0] - 1 < len(tup[3]):
+                        return tup[3][a[0] - 1]
+    return s
